@@ -188,6 +188,137 @@ fn flush_fault_trials(trials: usize, rep: &mut Report) {
     }
 }
 
+// ------------------------------------------------------------------------------------------------
+// Sessions: several messages of mixed kinds through ONE bus instance. Pacing must depend on the message just sent and
+// the reply just received only — not on what went before (a remembered "last message was data" flag, a pacing deadline
+// carried over, a delay that is applied one message late).
+
+#[derive(Clone)]
+struct SessMsg {
+    m: RefMsg,
+    reply: Option<RefMsg>,
+    class: &'static str,
+    data_chunk: bool,
+    in_progress_reply: bool,
+}
+
+fn random_session_message(rng: &mut crate::util::Rng) -> SessMsg {
+    let plain_states = [S_UNCONF, S_CFG_PROG, S_CFG_RECV, S_PIX_PROG, S_PIX_RECV, S_PIX_FAIL, S_LOADED, S_SHOWN, S_SHOWING, S_READY_RESET];
+    let reply_for = |rng: &mut crate::util::Rng, req: &RefMsg| -> (Option<RefMsg>, bool) {
+        match rng.below(4) {
+            0 => (Some(RefMsg::Report(3, if rng.bool() { S_LOAD_PROG } else { S_SHOW_PROG })), true),
+            1 => match req {
+                RefMsg::Request(a, o) => (Some(RefMsg::Ack(*a, *o)), false),
+                _ => (Some(RefMsg::Report(3, *rng.pick(&plain_states))), false),
+            },
+            _ => (Some(RefMsg::Report(3, *rng.pick(&plain_states))), false),
+        }
+    };
+    match rng.below(10) {
+        0..=2 => {
+            let len = *rng.pick(&[0usize, 1, 15, 16, 17, 255]);
+            SessMsg { m: RefMsg::Data { offset: 16 * rng.below(8) as u16, data: vec![0xC3; len] }, reply: None, class: "data chunk", data_chunk: true, in_progress_reply: false }
+        }
+        3 => SessMsg { m: RefMsg::Count(rng.below(5) as u16), reply: None, class: "chunk count", data_chunk: false, in_progress_reply: false },
+        4 => {
+            let m = RefMsg::Hello(3);
+            let (reply, ip) = reply_for(rng, &m);
+            SessMsg { m, reply, class: if ip { "hello<-in-progress" } else { "hello<-plain" }, data_chunk: false, in_progress_reply: ip }
+        }
+        5 | 6 => {
+            let m = RefMsg::Query(3);
+            let (reply, ip) = reply_for(rng, &m);
+            SessMsg { m, reply, class: if ip { "query<-in-progress" } else { "query<-plain" }, data_chunk: false, in_progress_reply: ip }
+        }
+        7 => {
+            let m = RefMsg::Request(3, rng.usize(N_OPS));
+            let (reply, ip) = reply_for(rng, &m);
+            SessMsg { m, reply, class: if ip { "request<-in-progress" } else { "request<-plain" }, data_chunk: false, in_progress_reply: ip }
+        }
+        8 => SessMsg { m: RefMsg::Complete(3), reply: None, class: "pixels complete", data_chunk: false, in_progress_reply: false },
+        _ => SessMsg { m: RefMsg::Goodbye(3), reply: None, class: "goodbye", data_chunk: false, in_progress_reply: false },
+    }
+}
+
+fn session(rng: &mut crate::util::Rng, rep: &mut Report) {
+    let n = 3 + rng.usize(4);
+    let msgs: Vec<SessMsg> = (0..n).map(|_| random_session_message(rng)).collect();
+    let shown = msgs.iter().map(|m| format!("{}{}", m.m.show(), m.reply.as_ref().map(|r| format!("<-{}", r.show())).unwrap_or_default())).collect::<Vec<_>>().join(" ");
+    rep.case(Some(fnv(shown.as_bytes())));
+    rep.count("sessions");
+    let mut tape = vec![];
+    for m in &msgs {
+        if let Some(r) = &m.reply {
+            tape.extend_from_slice(&refs::wire(r));
+        }
+    }
+    tape.extend_from_slice(SENTINEL);
+    let st = doubles::shared(doubles::WEIRD_SETTINGS);
+    let port = InstrPort::scripted(st.clone(), FragReader::plain(tape), FragWriter::new(vec![], WriteAct::Accept(usize::MAX)));
+    let Ok(mut bus) = SerialSignBus::try_new(port) else {
+        rep.note("measure_error/session", J::s("try_new failed"));
+        return;
+    };
+    let r = catch(|| {
+        let mut marks = vec![];
+        for m in &msgs {
+            let n0 = st.borrow().log.len();
+            let ok = bus.process_message(refs::from_ref(&m.m)).is_ok();
+            marks.push((n0, Instant::now(), ok));
+        }
+        marks
+    });
+    let marks = match r {
+        Ok(m) => m,
+        Err(p) => {
+            rep.note("measure_error/session", J::s(format!("panic {}", p.msg)));
+            return;
+        }
+    };
+    if marks.iter().any(|(_, _, ok)| !ok) {
+        rep.note("measure_error/session", J::s(format!("an exchange failed in [{}]", shown)));
+        return;
+    }
+    let log = st.borrow().log.clone();
+    let fail = |rep: &mut Report, class: &str, what: String| {
+        rep.violation(MON, class, &format!("session [{}]", shown), format!("session [{}]: {}", shown, what), J::obj(vec![("session", J::s(shown.clone())), ("observed", J::s(what.clone()))]));
+    };
+    for i in 0..n {
+        let lo = marks[i].0;
+        let hi = if i + 1 < n { marks[i + 1].0 } else { log.len() };
+        let mine = &log[lo..hi];
+        let last_write_end = mine.iter().filter(|e| matches!(e.ev, PortEv::Write { .. })).map(|e| e.t1).next_back();
+        let last_read_end = mine.iter().filter(|e| matches!(e.ev, PortEv::Read { .. })).map(|e| e.t1).next_back();
+        if msgs[i].in_progress_reply {
+            rep.count("session_paced_replies");
+            if let Some(t) = last_read_end {
+                let gap = marks[i].1.duration_since(t);
+                if gap < RECV_PACE {
+                    fail(rep, "in_progress_report_not_paced", format!("message #{} ({}) returned {:.3} ms after the in-progress report (< 100 ms)", i, msgs[i].m.show(), ms(gap)));
+                }
+            }
+        }
+        if i + 1 < n {
+            let next = &log[hi..if i + 2 < n { marks[i + 2].0 } else { log.len() }];
+            let next_write_start = next.iter().find(|e| matches!(e.ev, PortEv::Write { .. })).map(|e| e.t0);
+            if let (Some(a), Some(b)) = (last_write_end, next_write_start) {
+                let gap = b.duration_since(a);
+                if msgs[i].data_chunk {
+                    rep.count("session_paced_chunks");
+                    if gap < SEND_PACE {
+                        fail(rep, "data_chunk_not_paced", format!("message #{} ({}) was written {:.3} ms after the data chunk before it (< 30 ms)", i + 1, msgs[i + 1].m.show(), ms(gap)));
+                    }
+                } else if !msgs[i].in_progress_reply {
+                    // an exchange that needs no pacing: remembered per (kind, next kind) for the min-over-observations rule
+                    let key = format!("session_pair:{} -> {}", msgs[i].class, msgs[i + 1].class);
+                    rep.min(&key, ms(gap));
+                    rep.add(&format!("n:{}", key), 1);
+                }
+            }
+        }
+    }
+}
+
 /// "Not delayed": the MINIMUM over repeated trials must stay below the smaller pacing value.
 fn unpaced_trials(cell: &Cell, rep: &mut Report) {
     let mut min_send = Duration::MAX;
@@ -264,18 +395,40 @@ pub fn run(ctx: &Ctx) -> Outcome {
         rep2.sample_always(J::obj(vec![("cell", J::s(c.name.clone())), ("message", J::s(c.m1.show())), ("reply", J::s(c.reply.show()))]));
     }
     report.merge(rep2);
+    // phase 3: sessions (lower bounds per exchange; the "not delayed" side as a minimum per (kind, next kind) pair)
+    let n_sessions = ctx.size(160, 4_000) as usize;
+    let shards = 8usize;
+    let rep3 = run_sharded_on(shards, shards, |i, rep| {
+        let mut rng = ctx.rng("sessions", i as u64);
+        for _ in 0..n_sessions / shards {
+            session(&mut rng, rep);
+        }
+    });
+    report.merge(rep3);
+    let pair_keys: Vec<String> = report.mins.keys().filter(|k| k.starts_with("session_pair:")).cloned().collect();
+    for k in pair_keys {
+        let n = report.get(&format!("n:{}", k));
+        let min = report.mins[&k];
+        if n >= 8 {
+            report.count("session_pairs_judged");
+            if min >= 30.0 {
+                report.violation(MON, "unpaced_message_delayed", &k, format!("{}: over {} observations in sessions the next message was never written sooner than {:.3} ms after an exchange that needs no pacing", k, n, min), J::obj(vec![("pair", J::s(k.clone())), ("observations", J::u(n)), ("min_gap_ms", J::Num(min))]));
+            }
+        }
+    }
     let n_send_unpaced = all.iter().filter(|c| !c.send_paced).count() as u64;
     let floors = vec![
         floor("paced send trials (data chunks of 4 lengths)", report.get("paced_send_trials") >= 4 * trials as u64, report.get("paced_send_trials")),
         floor("paced receive trials (8 request kinds x 2 in-progress states x own/foreign)", report.get("paced_recv_trials") >= 32 * trials as u64, report.get("paced_recv_trials")),
         floor("data chunk followed by a failing flush (3 error kinds)", report.get("flush_fault_trials") >= 9, report.get("flush_fault_trials")),
+        floor("sessions: paced chunks, paced replies and unpaced pairs all observed mid-session", report.get("session_paced_chunks") >= 50 && report.get("session_paced_replies") >= 20 && report.get("session_pairs_judged") >= 10, format!("{} chunks, {} replies, {} pairs", report.get("session_paced_chunks"), report.get("session_paced_replies"), report.get("session_pairs_judged"))),
         floor("every unpaced cell measured", report.get("unpaced_send_cells") == n_send_unpaced, report.get("unpaced_send_cells")),
         floor("no measurement errors", !report.notes.keys().any(|k| k.starts_with("measure_error/")), "see notes"),
     ];
     Outcome {
         report,
         level: "exploration",
-        rule: "one cell per message kind (data chunks of 0/1/16/255 bytes, every other kind, all 6 operations) and per (request kind that gets a reply: hello, query, 6 operation requests) x (reply kind: 13 states x own/foreign address, 6 acks, unknown and data frames); paced cells: a lower bound asserted on EVERY trial; unpaced cells: the minimum over up to 75 trials must stay below 30 ms; distinct = cells (paced and unpaced legs counted separately)".into(),
+        rule: "one cell per message kind (data chunks of 0/1/16/255 bytes, every other kind, all 6 operations) and per (request kind that gets a reply: hello, query, 6 operation requests) x (reply kind: 13 states x own/foreign address, 6 acks, unknown and data frames); paced cells: a lower bound asserted on EVERY trial; unpaced cells: the minimum over up to 75 trials must stay below 30 ms; distinct = cells (paced and unpaced legs counted separately); plus random sessions of 3-6 mixed messages through one bus instance, every exchange judged on its own slice of the port log".into(),
         exhaustive: false,
         floors,
         assumptions: vec![
